@@ -75,6 +75,10 @@ pub fn reval(g: &PG, st: &RSt, depth: usize, overflow: &mut bool) -> Vec<RSt> {
             v.extend(reval(&PG::Anyo(g.clone()), st, depth - 1, overflow));
             v
         }
+        PG::Loop(cs) => {
+            let all: Vec<PG> = cs.iter().flat_map(|c| c.iter().cloned()).collect();
+            reval(&PG::Anyo(Box::new(PG::Conj(all))), st, depth, overflow)
+        }
         PG::Always => reval(&PG::Anyo(Box::new(PG::Succ)), st, depth, overflow),
         PG::Never => {
             *overflow = true;
